@@ -453,6 +453,28 @@ def r4_selection(ctx, rid="C02.R4"):
 
     cfg_ = CFG(f.node)
     aligned, reported = [], False
+    # a restore written as an item assignment into a copy of the current value (`new = cur.clone(); new[mask] = old[mask]`): rows are picked on
+    # the leading axis by construction, but what is put back is coerced to the dtype of the *current* (proposal-derived) tensor
+    oldish = {oldname}
+    for _ in range(3):
+        for st in statements(f.node):
+            if isinstance(st, ast.Assign) and any(isinstance(x, ast.Name) and x.id in oldish for x in ast.walk(st.value)):
+                tg, vl = st.targets[0], st.value
+                if isinstance(vl, ast.IfExp):
+                    vl = vl.body
+                if isinstance(tg, ast.Tuple) and isinstance(vl, ast.Tuple) and len(tg.elts) == len(vl.elts):
+                    for t_, v_ in zip(tg.elts, vl.elts):
+                        if isinstance(t_, ast.Name) and any(isinstance(x, ast.Name) and x.id in oldish for x in ast.walk(v_)):
+                            oldish.add(t_.id)
+                elif isinstance(tg, ast.Name) and isinstance(vl, (ast.Attribute, ast.Name, ast.Subscript)):
+                    oldish.add(tg.id)
+    for st in statements(f.node):
+        if isinstance(st, ast.Assign) and isinstance(st.targets[0], ast.Subscript) and isinstance(st.targets[0].value, ast.Name) and polarity(st.targets[0].slice) is not None \
+                and any(isinstance(x, ast.Name) and x.id in oldish for x in ast.walk(st.value)) and st.targets[0].value.id not in oldish:
+            ctx.violation(rid, f, st, f"`{U(st)[:80]}` restores the rejected rows by item assignment into (a copy of) the current value: what is put back takes the dtype of the tensor derived from "
+                          "the proposal, so a previous value of higher precision (float64 set from a table) comes back rounded - not the value the individual had; "
+                          "the confirmed form selects with torch.where, which keeps both", construct="restore by item assignment")
+            reported = True
     for nid, st in cfg_.stmt.items():
         if st is None or not isinstance(st, ast.Assign):
             continue
